@@ -103,7 +103,7 @@ impl Prop for C05 {
         "C05"
     }
     fn rule(&self) -> String {
-        "graphs of all 8 kinds, n in 0..=8 (oracle: explicit enumeration of all shortest paths per ordered pair and counting those with v strictly inside) n in 9..=30 and boundary sizes up to 255 (oracle: sigma products on the Floyd-Warshall matrix), and one case in 4300 with a procedurally generated sparse graph of 300..3000 nodes (oracle: an independent Brandes implementation, itself compared with the brute-force oracle on every small case), shapes and shuffled insertion order as C04; weight modes unweighted / positive dyadic / tie-rich; every graph is evaluated in all of weighted x normalized that apply; tolerance 1e-9 relative. Exhaustive block: all graphs on <= 3 nodes of the single-edge kinds. Non-trivial = some node has non-zero betweenness and some pair has >= 2 shortest paths; distinct = distinct serialised case. Name-type independence: for every graph of <= 12 nodes and one in eight up to 64 (34 for path-returning calls) the same calls are repeated with a user-defined node-name type (lossy Display, heavily colliding Hash, Ord unrelated to insertion order) and must give the same order-independent results as with String names (floats within 1e-9). Each call runs in the ambient 16-thread pool or, selected by the case, inside a shared rayon pool of 1, 3, 24 or 64 threads (more threads than nodes for the 21..=60-node class). Size sweep (exhaustive block): every node count n in 21..=1200 (thorough: ..=9000) on the family of disjoint 3-node paths, where the raw betweenness of every middle node is a constant taken from the brute-force oracle at n = 9.".into()
+        "graphs of all 8 kinds, n in 0..=8 (oracle: explicit enumeration of all shortest paths per ordered pair and counting those with v strictly inside) n in 9..=30 and boundary sizes up to 255 (oracle: sigma products on the Floyd-Warshall matrix), and one case in 4300 with a procedurally generated sparse graph of 300..3000 nodes (oracle: an independent Brandes implementation, itself compared with the brute-force oracle on every small case), shapes and shuffled insertion order as C04; weight modes unweighted / positive dyadic / tie-rich; every graph is evaluated in all of weighted x normalized that apply; tolerance 1e-9 relative. Exhaustive block: all graphs on <= 3 nodes of the single-edge kinds. Non-trivial = some node has non-zero betweenness and some pair has >= 2 shortest paths; distinct = distinct serialised case. Name-type independence: for every graph of <= 12 nodes and one in eight up to 64 (34 for path-returning calls) the same calls are repeated with a user-defined node-name type (lossy Display, heavily colliding Hash, Ord unrelated to insertion order) and must give the same order-independent results as with String names (floats within 1e-9). Each call runs in the ambient 16-thread pool or, selected by the case, inside a shared rayon pool of 1, 3, 24 or 64 threads (more threads than nodes for the 21..=60-node class). Size sweep (exhaustive block): every node count n in 21..=1200 (thorough: ..=9000) on the family of disjoint 3-node paths, where the raw betweenness of every middle node is a constant taken from the brute-force oracle at n = 9. Round 9: weight mode of neighbouring doubles (1, 1 + 2^-51, 1 + 2^-50) on graphs of <= 20 nodes; the weighted mode is checked when every distance is below 4 (all sums exact there) and skipped otherwise (counted): routes whose lengths differ by one ulp are not equally short.".into()
     }
     fn assumptions(&self) -> Vec<String> {
         vec!["positive weights; paths are node sequences (parallel edges do not multiply path counts)".into(), "float comparison with relative tolerance 1e-9 (the quotient sigma_sv*sigma_vt/sigma_st is not exact)".into()]
